@@ -248,7 +248,7 @@ def seq2(o1: int, s1: int, m1: int, o2: int, s2: int, m2: int) -> bool:
 
 def seq3(o1: int, s1: int, m1: int, o2: int, s2: int, m2: int, o3: int, s3: int, m3: int) -> bool:
     """
-    pre: 0 <= o1 < 4 and 0 <= m1 < 4 and o1 * 4 + m1 == PARTNO
+    pre: 0 <= o1 < 4 and 0 <= m1 < 4 and (o1 * 4 + m1) * 2 + (s1 % 2) == PARTNO
     pre: 0 <= s1 < NP and 0 <= o2 < 4 and 0 <= s2 < NP and 0 <= m2 < 4
     pre: 0 <= o3 < 4 and 0 <= s3 < 3 and 0 <= m3 < 2
     post: _
